@@ -499,6 +499,7 @@ ConcurrentScenario()
       }
     }
   };
+  s.deadlock_props = "C19";
   s.alloc_points = true;  // allocations inside a call are scheduling points (lazy initialisation, caches)
   s.body = [](int t) {
     std::mt19937_64 e{static_cast<uint64_t>(1000 + t)};
